@@ -153,6 +153,7 @@ class C08(Property):
     def _drive(self, out, spec, o, inp, g, ga, gb, base_a, base_b, order, ma, mb, mode, pu, cu, shape_a, shape_b):
         hist = History()
         last_arr = None
+        last_spilled = False
         last_payload = None
         forms_seen, pulls_between = set(), 0
 
@@ -174,8 +175,8 @@ class C08(Property):
                     last_payload = payload
                     forms_seen.add(form)
                 elif kind in ("push_shared", "push_view"):
-                    if last_arr is None or (o.data and isinstance(o.data[-1][1], str)):
-                        continue  # nothing to share memory with (previous entry lives on disk)
+                    if last_arr is None or last_spilled:
+                        continue  # nothing to share memory with (the previous publication went to disk when it was made)
                     payload = last_arr if kind == "push_shared" else last_arr.reshape(last_arr.shape)[...]
                     if fm.data.is_quantified(last_payload) and np.shares_memory(np.asarray(last_payload.magnitude), last_arr):
                         # the same buffer again, wrapped the same way as before (e.g. a quantity in an equivalent spelling)
@@ -209,6 +210,8 @@ class C08(Property):
                         out.viol("bad_push_accepted", f"{kind} accepted by push_data", spec=spec)
                         return out
                     hist.push(tsec, k)
+                    # where the entry went at publication time (an implementation may move entries between disk and RAM later)
+                    last_spilled = bool(o.data) and isinstance(o.data[-1][1], str)
                     out.count("publications")
                     if o.time != slots.t(tsec):
                         out.viol("output_time", f"Output.time {o.time} after publishing at {slots.t(tsec)}", spec=spec)
